@@ -67,22 +67,32 @@ def replay(prop, path):
     return 1
 
 
+_REPLAY_CACHE = {}
+
+
 def try_replay(prop, res, target):
     """ask the property's replay harness (real code under /venv/bin/python) for a failing input near the counter-model"""
     harness = os.path.join(HERE, "replay", "%s.py" % prop)
     if not os.path.exists(harness):
         return None
-    req = dict(target=target, obligation=res["name"], model=res.get("model"), witness=res.get("witness"), path=res.get("path"))
+    req = dict(target=target, obligation=res.get("name"), model=res.get("model"), witness=res.get("witness"), path=res.get("path"))
+    key = (prop, target)
+    if key in _REPLAY_CACHE:
+        return _REPLAY_CACHE[key]
+    _REPLAY_CACHE[key] = None
     try:
-        p = subprocess.run([VENV_PY, harness, "--from-obligation", json.dumps(req)], capture_output=True, text=True, timeout=300,
-                           env=dict(os.environ, PYTHONPATH=os.environ.get("VERIF_REPO", "/repo")))
+        env = dict(os.environ, PYTHONPATH=os.environ.get("VERIF_REPO", "/repo"))
+        p = subprocess.run([VENV_PY, harness, "--budget", "45", "--from-obligation", json.dumps(req)], capture_output=True, text=True,
+                           timeout=180, env=env, cwd="/tmp")
     except Exception as e:
         return None
     if p.returncode == 1:
         try:
-            return json.loads(p.stdout.strip().splitlines()[-1])
+            out = json.loads(p.stdout.strip().splitlines()[-1])
         except Exception:
-            return dict(raw=p.stdout[-2000:])
+            out = dict(scenario=None, observed=p.stdout[-2000:], required=None)
+        _REPLAY_CACHE[key] = out
+        return out
     return None
 
 
@@ -173,6 +183,24 @@ def finish(prop, tier, seed, R, outs, t0, update_baseline=False, extra_items=Non
                 prop, path, r["name"], "" if scen else " no-failing-input-found"))
             viol_records.append(rec)
         rc = 1
+    if undecided and not violations and base_proved and not update_baseline:
+        # the proof no longer goes through (restructured code, missing invariant, solver limit) for a function that verified on
+        # the unchanged tree: undecided, unless the property's replay harness finds a concrete failing input on the real code
+        for u in undecided[:3]:
+            if not any(k.startswith(u["target"].split("@")[0]) for k in base_proved):
+                continue
+            scen = try_replay(prop, dict(name=u["why"][:200]), u["target"])
+            if scen:
+                os.makedirs(REPLAY_DIR, exist_ok=True)
+                path = os.path.join("out", "replay", "%s_u%d.json" % (prop, len(viol_records)))
+                rec = dict(property=prop, obligation="(undecided) " + u["why"][:300], target=u["target"], status="undecided-then-replayed",
+                           scenario=scen.get("scenario"), observed=scen.get("observed"), required=scen.get("required"), baseline_proved=True)
+                with open(os.path.join(HERE, path), "w") as fh:
+                    json.dump(rec, fh, indent=1)
+                lines.append("VIOLATION property=%s replay=%s obligation=%s" % (prop, path, u["target"]))
+                viol_records.append(rec)
+                rc = 1
+                break
     if faults:
         for f in faults:
             lines.append("CHECKER-FAULT property=%s target=%s %s" % (prop, f["target"], f["why"][:400]))
